@@ -285,7 +285,7 @@ Definition run_walk (l : list N) : list N :=
           match decode_tree (length r3) r3 with
           | Some (t, _) =>
               let '(acts, ok) := walk (mkW (negb (nc =? 0)) (negb (dr =? 0)))
-                                      (fun q _ => negb (rel_in ign q)) (rel_in ex) [] t in
+                                      (root_kept (fun q _ => negb (rel_in ign q))) (rel_in ex) [] t in
               b2n ok :: b2n (tree_wf t) :: flat_map encode_wact acts
           | None => [8]
           end
